@@ -746,6 +746,239 @@ fn run_file(path: &std::path::Path, budget_s: f64) -> (Option<Viol>, bool, f64) 
 
 // ------------------------------------------------------------------------------------------------
 
+
+// ------------------------------------------------------------------------------------------------
+// the maintenance rules the real encoder emits, as Gallina `rule` values (checked against the
+// templates by coq/Encoding/EncOk.v `enc_rules_ok`)
+
+#[derive(Clone, Debug)]
+enum Sx {
+    A(String),
+    L(Vec<Sx>),
+}
+
+fn parse_sx(src: &str) -> Vec<Sx> {
+    let cs: Vec<char> = src.chars().collect();
+    let mut i = 0usize;
+    let mut stack: Vec<Vec<Sx>> = vec![vec![]];
+    while i < cs.len() {
+        let c = cs[i];
+        if c.is_whitespace() {
+            i += 1;
+        } else if c == '(' {
+            stack.push(vec![]);
+            i += 1;
+        } else if c == ')' {
+            let l = stack.pop().unwrap_or_default();
+            if let Some(top) = stack.last_mut() {
+                top.push(Sx::L(l));
+            } else {
+                stack.push(vec![Sx::L(l)]);
+            }
+            i += 1;
+        } else if c == '"' {
+            let mut t = String::from("\"");
+            i += 1;
+            while i < cs.len() && cs[i] != '"' {
+                if cs[i] == '\\' && i + 1 < cs.len() {
+                    t.push(cs[i]);
+                    i += 1;
+                }
+                t.push(cs[i]);
+                i += 1;
+            }
+            t.push('"');
+            i += 1;
+            stack.last_mut().unwrap().push(Sx::A(t));
+        } else {
+            let mut t = String::new();
+            while i < cs.len() && !cs[i].is_whitespace() && cs[i] != '(' && cs[i] != ')' {
+                t.push(cs[i]);
+                i += 1;
+            }
+            stack.last_mut().unwrap().push(Sx::A(t));
+        }
+    }
+    stack.pop().unwrap_or_default()
+}
+
+struct RuleConv<'a> {
+    tabs: &'a std::collections::HashMap<String, usize>,
+    vars: std::collections::HashMap<String, usize>,
+    fresh: usize,
+}
+
+impl<'a> RuleConv<'a> {
+    fn var(&mut self, name: &str) -> usize {
+        let n = self.vars.len();
+        *self.vars.entry(name.to_string()).or_insert(n)
+    }
+    fn dummy(&mut self) -> usize {
+        self.fresh += 1;
+        self.var(&format!("%dummy{}", self.fresh))
+    }
+    fn expr(&mut self, e: &Sx) -> Option<String> {
+        match e {
+            Sx::A(v) => Some(format!("EVar {}", self.var(v))),
+            Sx::L(l) if l.is_empty() => Some("EUnit".to_string()),
+            Sx::L(l) => match &l[0] {
+                Sx::A(h) if (h == "ordering-max" || h == "ordering-min") && l.len() == 3 => {
+                    let a = self.expr(&l[1])?;
+                    let b = self.expr(&l[2])?;
+                    Some(format!("{} ({a}) ({b})", if h == "ordering-max" { "EMax" } else { "EMin" }))
+                }
+                _ => None,
+            },
+        }
+    }
+    /// (Tab a b ..) with variables only
+    fn call(&mut self, l: &[Sx]) -> Option<(usize, Vec<usize>)> {
+        let Sx::A(h) = &l[0] else { return None };
+        let t = *self.tabs.get(h)?;
+        let mut vs = Vec::new();
+        for a in &l[1..] {
+            let Sx::A(v) = a else { return None };
+            vs.push(self.var(v));
+        }
+        Some((t, vs))
+    }
+    fn call_exprs(&mut self, l: &[Sx]) -> Option<(usize, Vec<String>)> {
+        let Sx::A(h) = &l[0] else { return None };
+        let t = *self.tabs.get(h)?;
+        let mut es = Vec::new();
+        for a in &l[1..] {
+            es.push(format!("({})", self.expr(a)?));
+        }
+        Some((t, es))
+    }
+}
+
+/// Some(Gallina list of the six maintenance rulesets) for the declarations in `header`
+fn encoded_rules_coq(p: &Program, header: &[String]) -> Option<String> {
+    let mut eg = mk(Mode::Term);
+    let cmds = eg.resolve_program(None, &header.join("\n")).ok()?;
+    let parsed: Vec<Sx> = cmds.iter().flat_map(|c| parse_sx(&c.to_string())).collect();
+    let mut tabs: std::collections::HashMap<String, usize> = std::collections::HashMap::new();
+    let mut subs: HashSet<String> = HashSet::new();
+    let ctor_ix = |name: &str| p.decls.iter().position(|d| d.name == name);
+    let atom = |x: &Sx| -> Option<String> {
+        match x {
+            Sx::A(a) => Some(a.clone()),
+            _ => None,
+        }
+    };
+    for c in &parsed {
+        let Sx::L(l) = c else { continue };
+        let Some(h) = l.first().and_then(atom) else { continue };
+        if h == "sort" {
+            if let Some(k) = l.iter().position(|x| atom(x).as_deref() == Some(":internal-uf")) {
+                tabs.insert(atom(&l[k + 1])?, 0);
+                tabs.insert(atom(&l[k + 2])?, 1);
+            }
+        } else if h == "function" {
+            if let Some(k) = l.iter().position(|x| atom(x).as_deref() == Some(":internal-term-constructor")) {
+                let f = ctor_ix(&atom(&l[k + 1])?)?;
+                tabs.insert(atom(&l[1])?, 2 + 2 * f);
+            }
+        } else if h == "constructor" {
+            let name = atom(&l[1])?;
+            if let Some(k) = name.find("to_delete_") {
+                if let Some(f) = ctor_ix(&name[k + "to_delete_".len()..]) {
+                    tabs.insert(name.clone(), 3 + 2 * f);
+                }
+            } else if name.contains("to_subsume_") {
+                subs.insert(name.clone());
+            }
+        }
+    }
+    let mut rulesets: Vec<Vec<String>> = vec![vec![]; 6];
+    for c in &parsed {
+        let Sx::L(l) = c else { continue };
+        if l.first().and_then(atom).as_deref() != Some("rule") {
+            continue;
+        }
+        let text = format!("{c:?}");
+        if subs.iter().any(|s| text.contains(s.as_str())) {
+            continue; // rules over the __to_subsume tables: not modelled
+        }
+        let rs_name = l.iter().position(|x| atom(x).as_deref() == Some(":ruleset")).and_then(|k| atom(&l[k + 1])).unwrap_or_default();
+        let rs = if rs_name.contains("single_parent") {
+            1
+        } else if rs_name.contains("uf_function_index") {
+            2
+        } else if rs_name.contains("rebuilding_cleanup") {
+            4
+        } else if rs_name.contains("rebuilding") {
+            3
+        } else if rs_name.contains("delete_subsume") {
+            5
+        } else if rs_name.ends_with("parent") {
+            0
+        } else {
+            continue;
+        };
+        let (Sx::L(body), Sx::L(acts)) = (&l[1], &l[2]) else { return None };
+        let mut cv = RuleConv { tabs: &tabs, vars: Default::default(), fresh: 0 };
+        let mut atoms: Vec<String> = Vec::new();
+        let mut guards: Vec<String> = Vec::new();
+        for f in body {
+            let Sx::L(fl) = f else { return None };
+            let h = atom(&fl[0])?;
+            if h == "!=" {
+                guards.push(format!("GNeq ({}) ({})", cv.expr(&fl[1])?, cv.expr(&fl[2])?));
+            } else if h == "guard" {
+                let Sx::L(or) = &fl[1] else { return None };
+                if atom(&or[0]).as_deref() != Some("or") {
+                    return None;
+                }
+                let mut ps = Vec::new();
+                for d in &or[1..] {
+                    let Sx::L(dl) = d else { return None };
+                    if atom(&dl[0]).as_deref() != Some("bool-!=") {
+                        return None;
+                    }
+                    ps.push(format!("({}, {})", cv.expr(&dl[1])?, cv.expr(&dl[2])?));
+                }
+                guards.push(format!("GAnyNeq [{}]", ps.join("; ")));
+            } else if h == "=" {
+                // (= x (Tab args..)) is an atom with its output bound to x; anything else a guard
+                let as_call = |x: &Sx| -> bool { matches!(x, Sx::L(cl) if !cl.is_empty() && matches!(&cl[0], Sx::A(t) if tabs.contains_key(t))) };
+                if let (Sx::A(x), true) = (&fl[1], as_call(&fl[2])) {
+                    let Sx::L(cl) = &fl[2] else { return None };
+                    let (t, mut vs) = cv.call(cl)?;
+                    vs.push(cv.var(x));
+                    atoms.push(format!("mkAtom {t} {}", coq_nat_list(&vs)));
+                } else {
+                    guards.push(format!("GEq ({}) ({})", cv.expr(&fl[1])?, cv.expr(&fl[2])?));
+                }
+            } else {
+                // (Tab a b): a row of a ()-valued table, its output is not bound
+                let (t, mut vs) = cv.call(fl)?;
+                vs.push(cv.dummy());
+                atoms.push(format!("mkAtom {t} {}", coq_nat_list(&vs)));
+            }
+        }
+        let mut actions: Vec<String> = Vec::new();
+        for a in acts {
+            let Sx::L(al) = a else { return None };
+            let h = atom(&al[0])?;
+            if h == "set" {
+                let Sx::L(cl) = &al[1] else { return None };
+                let (t, es) = cv.call_exprs(cl)?;
+                actions.push(format!("ASet {t} [{}] ({})", es.join("; "), cv.expr(&al[2])?));
+            } else if h == "delete" {
+                let Sx::L(cl) = &al[1] else { return None };
+                let (t, es) = cv.call_exprs(cl)?;
+                actions.push(format!("ADel {t} [{}]", es.join("; ")));
+            } else {
+                return None;
+            }
+        }
+        rulesets[rs].push(format!("mkRule [{}] [{}] [{}]", atoms.join("; "), guards.join("; "), actions.join("; ")));
+    }
+    Some(format!("[{}]", rulesets.iter().map(|r| format!("[{}]", r.join("; "))).collect::<Vec<_>>().join("; ")))
+}
+
 fn record(viols: &mut Vec<Viol>, v: Viol) {
     if let Ok(mut f) = FOUND.lock() {
         f.push(serde_json::json!({"what": v.what, "key": v.key, "input": v.input}));
@@ -823,8 +1056,8 @@ fn main() {
     start_watchdog(o.out.clone(), if o.thorough { 600 } else { 180 });
     let repo = std::env::var("VERIF_REPO").unwrap_or_else(|_| "/repo".to_string());
 
-    let header = "From Coq Require Import List ZArith NArith.\nImport ListNotations.\nRequire Import Verif.Base.Cases Verif.Egg.Model Verif.Encoding.Datalog Verif.Encoding.Templates.\n";
-    let mut w = CaseWriter::new(&o.out, "cases_modes", header, "check_case", 40);
+    let header = "From Coq Require Import List ZArith NArith.\nImport ListNotations.\nRequire Import Verif.Base.Cases Verif.Egg.Model Verif.Encoding.Datalog Verif.Encoding.Templates Verif.Encoding.EncOk.\n";
+    let mut w = CaseWriter::new(&o.out, "cases_modes", header, "check_case2", 40);
     let mut viols: Vec<Viol> = Vec::new();
     let mut distinct: HashSet<String> = HashSet::new();
     let mut nontrivial = 0usize;
@@ -839,6 +1072,7 @@ fn main() {
     let mut files_run: Vec<String> = Vec::new();
     let mut files_skipped_slow: Vec<String> = Vec::new();
     let mut cons_nontrivial = 0usize;
+    let mut enc_rules_emitted = 0usize;
     let mut corpus_sessions = 0usize;
 
     let mut handle = |s: &Session, tag: String, do_reprint: bool, w: &mut CaseWriter, viols: &mut Vec<Viol>| {
@@ -871,15 +1105,25 @@ fn main() {
                     cons_nontrivial += 1;
                 }
                 let arities = coq_list(&s.p.decls, |d| coq_list(&d.args, |a| if *a == Sort::S { "true".to_string() } else { "false".to_string() }));
+                let rules = match encoded_rules_coq(&s.p, &s.header) {
+                    Some(r) => {
+                        enc_rules_emitted += 1;
+                        format!("(Some {r})")
+                    }
+                    // the encoder's output no longer has the expected shape: an empty program never
+                    // equals the templates, so the case fails and the link is reported broken
+                    None => "(Some [])".to_string(),
+                };
                 w.push(format!(
-                    "(mkCase {} {} {} {})",
+                    "(mkCase2 (mkCase {} {} {} {}) {})",
                     arities,
                     coq_list(cs, cons_cmd_coq),
                     coq_list(&probes, Program::term_coq),
-                    coq_list(&cls, |z| coq_z(*z))
+                    coq_list(&cls, |z| coq_z(*z)),
+                    rules
                 ));
             } else {
-                w.push("(mkCase [] [] [] [])".to_string());
+                w.push("(mkCase2 (mkCase [] [] [] []) None)".to_string());
             }
         }
         if let Some(v) = r.viol {
@@ -1001,7 +1245,7 @@ fn main() {
         "extra_coverage": {
             "commands_succeeded": total_cmds, "commands_failed_same_in_all_modes": total_failed,
             "seconds_plain_term_proofs_reprint": times, "upstream_files_run": files_run, "upstream_files_skipped_slow": files_skipped_slow,
-            "model_cases": w.total
+            "model_cases": w.total, "encoder_rule_sets_compared_with_templates": enc_rules_emitted
         }
     });
     std::fs::write(o.out.join("impl_report.json"), serde_json::to_string(&rep).unwrap()).unwrap();
